@@ -65,6 +65,7 @@ pub struct TagIterator<R: Read, TSpec>
     emission_queue: VecDeque<Result<(TSpec, usize), TagIteratorError>>,
     last_emitted_tag_offset: usize,
     has_determined_doc_path: bool,
+    is_buffering_master: bool,
 
     emit_master_end_when_eof: bool,
 }
@@ -105,6 +106,7 @@ impl<R: Read, TSpec> TagIterator<R, TSpec>
             emission_queue: VecDeque::new(),
             last_emitted_tag_offset: 0,
             has_determined_doc_path: false,
+            is_buffering_master: false,
             emit_master_end_when_eof: true,
         }
     }
@@ -465,8 +467,10 @@ impl<R: Read, TSpec> TagIterator<R, TSpec>
                         data_start: next_tag.data_start,
                     });
 
-                    if self.tag_ids_to_buffer.contains(&tag_id) {
-                        self.buffer_master(tag_id);
+                    // A master that starts while another one is being buffered is either nested in it (and rolled up
+                    // with it) or follows it (and is buffered right after it): neither needs a nested call
+                    if self.tag_ids_to_buffer.contains(&tag_id) && !self.is_buffering_master {
+                        self.buffer_masters(tag_id);
                         return;
                     }
                 }
@@ -480,11 +484,31 @@ impl<R: Read, TSpec> TagIterator<R, TSpec>
         }
     }
 
+    fn buffer_masters(&mut self, mut tag_id: u64) {
+        self.is_buffering_master = true;
+        loop {
+            self.buffer_master(tag_id);
+
+            // Finding the end of an unknown-size or just completed master can mean reading the start of the next tag
+            // If that tag is to be buffered too, carry on with it here
+            match self.emission_queue.back() {
+                Some(Ok((tag, _))) if matches!(tag.as_master(), Some(Master::Start)) && self.tag_ids_to_buffer.contains(&tag.get_id()) => {
+                    tag_id = tag.get_id();
+                    self.emission_queue.pop_back();
+                },
+                _ => break,
+            }
+        }
+        self.is_buffering_master = false;
+    }
+
     fn buffer_master(&mut self, tag_id: u64) {
         let tag_start = self.tag_stack.last().map(|t| t.tag_start).unwrap_or_else(|| self.current_offset());
         let pre_queue_len = self.emission_queue.len();
 
         let mut position = pre_queue_len;
+        // tags nested in this one may have the same id: the matching end is the one at the same depth
+        let mut depth = 0;
         'endTagSearch: loop {
             if position >= self.emission_queue.len() {
                 self.read_next();
@@ -500,8 +524,13 @@ impl<R: Read, TSpec> TagIterator<R, TSpec>
                     match r {
                         Err(_) => break 'endTagSearch,
                         Ok(t) => {
-                            if t.0.get_id() == tag_id && matches!(t.0.as_master(), Some(Master::End)) {
-                                break 'endTagSearch;
+                            if t.0.get_id() == tag_id {
+                                match t.0.as_master() {
+                                    Some(Master::Start) => depth += 1,
+                                    Some(Master::End) if depth == 0 => break 'endTagSearch,
+                                    Some(Master::End) => depth -= 1,
+                                    _ => {},
+                                }
                             }
                         }
                     }
